@@ -10,6 +10,7 @@ records of every sheet substream (from `Merge.enc_xls_sheet`), `pack_xls` wraps 
 workbook stream inside a minimal compound file (tools/cfbgen.py of C13 when importable).
 Everything random comes from the rng argument."""
 import io, struct, zipfile
+import xlsgen
 
 NS_MAIN = "http://schemas.openxmlformats.org/spreadsheetml/2006/main"
 NS_REL = "http://schemas.openxmlformats.org/officeDocument/2006/relationships"
@@ -490,14 +491,46 @@ def gen_xls(rng, profile="structured"):
             return (0x0200, struct.pack("<IIHHH", 0, 100, 0, 20, 0))
         return (rng.choice([0x0208, 0x023E, 0x001D, 0x0099]), bytes(rng.randrange(256) for _ in range(rng.randrange(0, 12))))
 
+    def others(lo, hi):
+        """records of the sheet itself and nested substreams (the chart substream of an embedded chart object,
+        [MS-XLS] 2.1.7.20.5 OBJECTS: MsoDrawing, OBJ, BOF ... EOF; it comes BEFORE the MergeCells records of the
+        sheet).  The chart's records are whatever xlsgen.chart_sub draws: the series cache, and with some
+        probability MERGECELLS records, FORMULA, further BOF ... EOF pairs, CONTINUE records"""
+        out = []
+        for _ in range(rng.randrange(lo, hi)):
+            t, d = quiet_rec()
+            out += ["OT", str(t), xs(d)]
+        if rng.random() < 0.4:
+            for _ in range(rng.choice([1, 1, 2])):
+                sub = xlsgen.chart_sub(rng, [(rng.randrange(50), rng.randrange(10)) for _ in range(3)], exotic=0.5)
+                recs = []
+                for t, b, conts in sub["recs"]:
+                    recs.append((t, b))
+                    recs += [(0x003C, c) for c in conts]
+                if rng.random() < 0.5:
+                    # a MERGECELLS record of the chart's own, well-formed or too short for its count
+                    n = rng.choice([1, 2, 3])
+                    body = struct.pack("<H", n) + b"".join(struct.pack("<HHHH", 7 + i, 8 + i, 1, 2) for i in range(n))
+                    recs.insert(rng.randrange(len(recs) + 1), (0x00E5, body if rng.random() < 0.7 else body[:rng.choice([0, 1, 2, 9])]))
+                if rng.random() < 0.7:
+                    out += ["OT", str(0x00EC), xs(bytes(8)), "OT", str(0x005D), xs(bytes(26))]
+                out += ["SB", xs(sub["bof"]), ",".join("%d:%s" % (t, xs(b)) for t, b in recs) or "-"]
+                info["subs"] = info.get("subs", 0) + 1
+                if any(t == 0x00E5 for t, _ in recs):
+                    info["subs_with_mergecells"] = info.get("subs_with_mergecells", 0) + 1
+            for _ in range(rng.randrange(0, 2)):
+                t, d = quiet_rec()
+                out += ["OT", str(t), xs(d)]
+        return out
+
     for name in names:
         toks += ["SH", xs(name)]
+        if rng.random() < 0.2:
+            toks += ["BF", xs(bytes(rng.getrandbits(8) for _ in range(rng.choice([0, 4, 16]))))]
         row[0] = 0
         ngroups = rng.choice([0, 1, 1, 2, 3])
         for _ in range(ngroups):
-            for _ in range(rng.randrange(0, 3)):
-                t, d = quiet_rec()
-                toks += ["OT", str(t), xs(d)]
+            toks += others(0, 3)
             k = rng.random()
             n = rng.choice([1, 1, 2, 3, 7]) if k < 0.9 else rng.choice([0, 1026, 1026, 1027, 300])
             if profile == "malformed" and rng.random() < 0.2:
@@ -509,9 +542,7 @@ def gen_xls(rng, profile="structured"):
             toks += ["MC", "/".join("%d,%d,%d,%d" % b for b in regs) if regs else "-"]
             info["regions"] += n
             info["records"] += 1
-        for _ in range(rng.randrange(0, 3)):
-            t, d = quiet_rec()
-            toks += ["OT", str(t), xs(d)]
+        toks += others(0, 3)
     calls = []
     for i, name in enumerate(names):
         calls += ["merges " + hx(name), "mergesat %d" % i]
@@ -539,8 +570,9 @@ def rec(t, data):
 
 
 def biff_workbook(names, sheet_records, mutate=None):
-    """BIFF8 workbook stream: globals (BOF, CODEPAGE, BOUNDSHEET8 x n, EOF), then for each sheet
-    BOF + the given records (which contain their EOF)."""
+    """BIFF8 workbook stream: globals (BOF, CODEPAGE, BOUNDSHEET8 x n, EOF), then for each sheet the
+    given records (which contain their EOF); a worksheet BOF is put in front of a record list that does
+    not start with one (Merge.enc_xls_sheet writes the sheet's BOF itself)."""
     bof_g = rec(0x0809, struct.pack("<HHHHII", 0x0600, 0x0005, 0x0DBB, 0x07CC, 0, 0x0306))
     cp = rec(0x0042, struct.pack("<H", 1200))
     bof_s = rec(0x0809, struct.pack("<HHHHII", 0x0600, 0x0010, 0x0DBB, 0x07CC, 0, 0x0306))
@@ -553,7 +585,7 @@ def biff_workbook(names, sheet_records, mutate=None):
             body = bytes([len(u) // 2, 1]) + u
         return rec(0x0085, struct.pack("<IBB", pos, 0, 0) + body)
 
-    subs = [bof_s + b"".join(rec(t, d) for t, d in recs) for recs in sheet_records]
+    subs = [(b"" if recs and recs[0][0] == 0x0809 else bof_s) + b"".join(rec(t, d) for t, d in recs) for recs in sheet_records]
     eof = rec(0x000A, b"")
     glen = len(bof_g) + len(cp) + sum(len(bs(0, n)) for n in names) + len(eof)
     pos, offs = glen, []
